@@ -151,6 +151,19 @@ def run(seed=0, tier='quick', hints=None, broken=False):
             check('CropAndPad-keep_size', [k], dict(case, channels=None), viol, lattice=False)
             evals += 2
             seen.add(('CropAndPad-sweep', repr(c['args'].get('px', c['args'].get('percent')))))
+    # free rotations with nearest order on the image too: class x plane x crop_to_border; the mask must then show the
+    # very voxel the image shows (same plane, same angle, same shift / scale, same output frame)
+    for rep in range(1 if tier == 'quick' else 10):
+        for cls in ('Rotate', 'ShiftScaleRotate'):
+            for plane in S.PLANES:
+                for ctb in (False, True):
+                    shape = tuple(rng.sample([7, 9, 11, 13], 3))
+                    kw = dict(axes=plane, crop_to_border=ctb, interpolation=0, border_mode='constant', value=0, mask_value=0)
+                    kw.update(dict(limit=(20, 70)) if cls == 'Rotate' else dict(rotate_limit=(20, 70)))
+                    case = {'shape': list(shape), 'seed': R.pick_seed(rng), 'channels': None}
+                    check('%s-%s%s' % (cls, plane, '-crop_to_border' if ctb else ''), [S.L(cls, **kw)], case, viol, lattice=False)
+                    evals += 1
+                    seen.add((cls, plane, ctb))
     for rep in range(1 if tier == 'quick' else 10):
         for case in blend_cases(rng):
             check_blend(case, viol)
